@@ -72,6 +72,8 @@ def tasks(tier):
     for kinds in KINDS:
         for fi, funcs in enumerate(FUNCS):
             for labs in LABELS:
+                if tier == "quick" and fi > 0 and (any(x.startswith("-") for x in labs) or kinds in ("cccd", "dccc")):
+                    continue  # quick tier: the anonymous-block variants and two kind rows only with the first function partition
                 t.append(("sets", kinds, fi, list(labs), n))
                 if fi == 0 or tier == "thorough":
                     t.append(("chains", kinds, fi, list(labs), 0))
